@@ -555,6 +555,22 @@ func c04WindowProgs() []*c04Prog {
 			}
 		}
 	}
+	// (iii) Mkdir / MkdirAll / Create of a name below a missing parent ‖ the parent appearing as a
+	// regular FILE (or as a directory): the ancestor check and the insertion are one section, so
+	// either the file is created first (then ENOTDIR) or the directory chain (then the exclusive
+	// create of the file fails); never both successes with a file turned into a directory
+	for _, mk := range [][]string{{oMkdir("/p/sub", 0o755)}, {oMkdirAll("/p/sub/deep", 0o755)}, {oCreate(c04Slot(0, 0), "/p/sub")}, {oOpenFile(c04Slot(0, 0), "/p/sub", c04Create|os.O_EXCL, 0o644)}} {
+		for _, parent := range [][]string{
+			{oOpenFile(c04Slot(1, 0), "/p", c04Create|os.O_EXCL, 0o644)},
+			{oCreate(c04Slot(1, 0), "/p")},
+			{oMkdir("/p", 0o755)},
+			{oRename("/f", "/p")},
+		} {
+			p := &c04Prog{Focus: "window-below-file", Threads: [][]string{mk, parent}}
+			p.Setup = append(p.Setup, c04MkFile("/f", "ff")...)
+			out = append(out, p)
+		}
+	}
 	return out
 }
 
